@@ -114,9 +114,29 @@ fn speak_rules(rules: &'static std::thread::LocalKey<RefCell<SpeechRules>>, math
         if !nav_node_id.is_empty() {
             // See https://github.com/NSoiffer/MathCAT/issues/174 for why we can just start the speech at the nav node
             if let Some(start) = speech_string.find("[[") {
-                match speech_string[start+2..].find("]]") {
+                // the markers nest when several elements of the intent tree carry the id of the nav node (e.g., msubsup => power(sub, ...)),
+                // so look for the "]]" that matches the first "[["
+                let mut depth = 0;
+                let mut matching_end = None;
+                let mut i = start;
+                while i < speech_string.len() {
+                    if speech_string[i..].starts_with("[[") {
+                        depth += 1;
+                        i += 2;
+                    } else if speech_string[i..].starts_with("]]") {
+                        depth -= 1;
+                        if depth == 0 {
+                            matching_end = Some(i);
+                            break;
+                        }
+                        i += 2;
+                    } else {
+                        i += speech_string[i..].chars().next().map_or(1, |ch| ch.len_utf8());
+                    }
+                }
+                match matching_end {
                     None => bail!("Internal error: looking for '[[...]]' during navigation -- only found '[[' in '{}'", speech_string),
-                    Some(end) => speech_string = speech_string[start+2..start+2+end].to_string(),
+                    Some(end) => speech_string = speech_string[start+2..end].replace("[[", "").replace("]]", ""),
                 }
             } else {
                 bail!(NAV_NODE_SPEECH_NOT_FOUND);
